@@ -11,6 +11,7 @@ import (
 	"path/filepath"
 	"regexp"
 	"sort"
+	"strconv"
 	"strings"
 
 	"golang.org/x/tools/go/ssa"
@@ -163,6 +164,9 @@ func checkC15(c *Ctx, r *Report, tier string) {
 	r.Rule("C15.R1", "alignment independence (object code built from the current .s files): no instruction with an alignment-checked memory operand (movaps/movdqa/…, their VEX forms, and every legacy-SSE packed instruction with an m128 source) addresses memory through one of the two data pointers (the linker-aligned constant pool is exempt)", 6)
 	r.Rule("C15.R2", "stores go only to the result slots (the pointers loaded from the 4th/5th argument) or the stack; the data pointers and the length register are never written", 6)
 	r.Rule("C15.R3", "control flow is a function of the length alone: no move from a vector register or from data memory into a general register, no comiss/ucomiss/ptest/movmsk feeding flags", 6)
+	r.Rule("C15.R5", "head/tail split is consistent with the vector width: with W = floats per widest load through a data pointer, every `and reg, -M` rounding the length has M = W, and every `not reg; or reg, K` (the complement of that rounding, used to count the scalar tail) has K = W-1", 6)
+	r.Rule("C15.R6", "non-negative: every Space.Distance result is, by sign analysis of the Go wrappers, a sum of squares / absolute values, a square root, or passed through Abs/Max(0,·) — never the raw result of a floating-point subtraction such as 1 - cos", 3)
+	distancesNonNegative(c, r, "C15.R6")
 	r.Rule("C15.R4", "wrapper contract (Go SSA): the length argument is len of the first slice parameter, the data arguments are &p0[0] and &p1[0] in that order, result arguments are addresses of fresh locals; the dispatch wrappers pass (a, b) through unchanged", 12)
 	// ---- R4 first (pure SSA) ----
 	kernels := map[string][]string{} // pkg rel -> stub names
@@ -331,6 +335,7 @@ func analyseKernel(c *Ctx, r *Report, name string, ins []asmInstr) {
 		}
 		break
 	}
+	defer func() { roundingConstantsAgree(c, r, name, ins, role) }()
 	var dataRegs, resRegs []string
 	lenReg := ""
 	for rg, ro := range role {
@@ -417,5 +422,75 @@ func analyseKernel(c *Ctx, r *Report, name string, ins []asmInstr) {
 		r.Bad("C15.R3", name, "data-independent-control-flow", "-", "values of the vectors can reach general registers / flags: "+strings.Join(cf, "; "))
 	} else {
 		r.OK("C15.R3", name, "data-independent-control-flow", "-", "branches depend on the length register only")
+	}
+}
+
+// roundingConstantsAgree: the constants that split the length into a vector part and a scalar tail derive from one
+// vector width.
+func roundingConstantsAgree(c *Ctx, r *Report, name string, ins []asmInstr, role map[string]string) {
+	w := 0
+	for _, in := range ins {
+		if in.memIdx < 0 {
+			continue
+		}
+		if ro := role[reg64(in.memBase)]; ro != "a" && ro != "b" {
+			continue
+		}
+		switch in.memSize {
+		case "ymmword":
+			if w < 8 {
+				w = 8
+			}
+		case "xmmword":
+			if w < 4 {
+				w = 4
+			}
+		}
+	}
+	if w == 0 {
+		r.Unk("C15.R5", name, "vector-width", "-", "no packed load through a data pointer found")
+		return
+	}
+	n, bad := 0, ""
+	imm := func(s string) (int64, bool) {
+		v, err := strconv.ParseInt(strings.TrimSpace(s), 0, 64)
+		return v, err == nil
+	}
+	for k, in := range ins {
+		if len(in.ops) != 2 || !isGPR(in.ops[0]) {
+			continue
+		}
+		v, ok := imm(in.ops[1])
+		if !ok {
+			continue
+		}
+		switch in.mnem {
+		case "and":
+			if v < -2 && (-v)&(-v-1) == 0 {
+				n++
+				if int(-v) != w {
+					bad = fmt.Sprintf("`%s` at %s rounds the length to a multiple of %d, the widest data load holds %d floats", in.raw, in.addr, -v, w)
+				}
+			}
+		case "or":
+			// complement idiom: not r ; or r, K
+			isCompl := false
+			for j := k - 1; j >= 0 && j >= k-2; j-- {
+				if ins[j].mnem == "not" && len(ins[j].ops) == 1 && reg64(ins[j].ops[0]) == reg64(in.ops[0]) {
+					isCompl = true
+				}
+			}
+			if isCompl {
+				n++
+				if int(v) != w-1 {
+					bad = fmt.Sprintf("`%s` at %s complements the length with mask %d, but the vector part was rounded to multiples of %d (mask %d): for some lengths the scalar tail ends early or runs past the end", in.raw, in.addr, v, w, w-1)
+				}
+			}
+		}
+	}
+	if bad != "" {
+		r.Bad("C15.R5", name, "rounding-constants", "-", bad)
+	} else {
+		r.OK("C15.R5", name, "rounding-constants", "-", fmt.Sprintf("vector width %d floats; %d rounding / complement constant(s) agree with it", w, n))
 	}
 }
